@@ -1876,7 +1876,7 @@ func c20r13(c *Ctx, r *Report) {
 func c16r11(c *Ctx, r *Report) {
 	l := c.L
 	r.rule("C16-R11", "E (census: handlers that reach the executor vs. the filter's case list)", "P1",
-		"every action type under whose case the action interpreter (a closure of Terminal.Loop) calls a function that reaches Executor.ExecCommand or Executor.Become through static calls is a case of processExecution",
+		"every action type under whose case the action interpreter (a closure of Terminal.Loop) calls a function that reaches Executor.ExecCommand or Executor.Become through static calls, builds a commandSpec for the reader, or calls a closure that enqueues a preview request, is a case of processExecution",
 		"an action that executes a shell command passes the filter of a non-local listener: remote command execution without --listen-unsafe")
 	pe := l.Fn("fzf", "processExecution")
 	loop := l.Fn("fzf", "(*Terminal).Loop")
@@ -1945,11 +1945,60 @@ func c16r11(c *Ctx, r *Report) {
 	}
 	execs := map[int64]token.Pos{}
 	via := map[int64]string{}
+	// closures of Loop that enqueue a preview request: the command they carry is run by the previewer goroutine
+	posts := map[*ssa.Function]bool{}
+	for _, f := range withClosures(loop) {
+		eachInstr(f, func(in ssa.Instruction) {
+			if al, ok := in.(*ssa.Alloc); ok {
+				if nn, ok := deref(al.Type()).(*types.Named); ok && nn.Obj().Name() == "previewRequest" && f != loop && len(f.Params) == 1 {
+					// the closure's own parameter is the template it enqueues
+					eachInstr(f, func(i2 ssa.Instruction) {
+						if st, ok := i2.(*ssa.Store); ok && st.Val == ssa.Value(f.Params[0]) {
+							if fld, _ := fieldOf(st.Addr); fld != nil && fld.Name() == "template" {
+								posts[f] = true
+							}
+						}
+					})
+				}
+			}
+		})
+	}
 	for _, f := range withClosures(loop) {
 		var pc *PathConds
 		eachInstr(f, func(in ssa.Instruction) {
 			g := staticCallee(in)
-			if g == nil || !reach[g] {
+			runs := g != nil && reach[g]
+			name := ""
+			if runs {
+				name = g.Name()
+			}
+			// a reload command is handed to the reader as a commandSpec
+			if al, ok := in.(*ssa.Alloc); ok {
+				if nn, ok := deref(al.Type()).(*types.Named); ok && nn.Obj().Name() == "commandSpec" {
+					runs, name = true, "a commandSpec (run by the reader)"
+				}
+			}
+			// a preview command is handed to the previewer through one of the enqueueing closures
+			if call, ok := in.(*ssa.Call); ok && !call.Common().IsInvoke() {
+				if u, ok := call.Common().Value.(*ssa.UnOp); ok && u.Op == token.MUL {
+					if fv, ok := u.X.(*ssa.FreeVar); ok {
+						if al := freeVarAlloc(f, fv); al != nil {
+							for _, st := range storesToAlloc(al) {
+								if mc, ok := st.Val.(*ssa.MakeClosure); ok && posts[mc.Fn.(*ssa.Function)] && len(call.Call.Args) == 1 {
+									// only when the command is the action's own argument (re-running the configured
+									// --preview command is not the execution of something the client sent)
+									for w := range backwardSlice(call.Call.Args[0], nil, nil) {
+										if fld, _ := loadedField(w); fld != nil && fld.Name() == "a" {
+											runs, name = true, "a preview request for the action's argument (run by the previewer)"
+										}
+									}
+								}
+							}
+						}
+					}
+				}
+			}
+			if !runs {
 				return
 			}
 			if pc == nil {
@@ -1978,7 +2027,7 @@ func c16r11(c *Ctx, r *Report) {
 				for k := range pos {
 					if _, seen := execs[k]; !seen {
 						execs[k] = in.Pos()
-						via[k] = g.Name()
+						via[k] = name
 					}
 				}
 			}
@@ -4026,4 +4075,146 @@ func c12r11(c *Ctx, r *Report) {
 			"'...' on this path", "this return hands the argument back without quotes")
 	})
 	r.floor("returns of escapeSingleQuote", n, 1)
+}
+
+// c11r17: a backspace strikes out the ONE character in front of it (`.\x08` in the documented pattern, where
+// `.` is one UTF-8 decoding step: a valid sequence, or a single byte if the bytes do not decode). The start of
+// the removed range is therefore i-1 or i-n with n reported by utf8.DecodeLastRuneInString for the text before
+// the backspace (round-7 mutant C11a7 stepped back over continuation bytes by hand: in non-UTF-8 input several
+// bytes of ordinary text were swallowed).
+func c11r17(c *Ctx, r *Report) {
+	l := c.L
+	r.rule("C11-R17", "D (provenance of the start of the struck-out character)", "P1",
+		"in nextAnsiEscapeSequence, every return reached under `byte == 0x08` returns as its start the scan position minus the constant 1 or minus the width result of utf8.DecodeLastRuneInString",
+		"a backspace after bytes that are not valid UTF-8 removes more than one character of the text")
+	fn := l.Fn("fzf", "nextAnsiEscapeSequence")
+	if fn == nil {
+		r.unest("anchors", token.NoPos, nil, "anchor nextAnsiEscapeSequence", "cannot resolve")
+		return
+	}
+	pc := pathConds(fn)
+	n := 0
+	eachInstr(fn, func(in ssa.Instruction) {
+		ret, ok := in.(*ssa.Return)
+		if !ok || len(ret.Results) != 2 {
+			return
+		}
+		if isConstInt(ret.Results[0], -1) {
+			return
+		}
+		underBS, _ := pc.Implies(in.Block(), func(lits []Lit) bool {
+			return hasLit(lits, func(a ssa.Value, v bool) bool {
+				_, op, k, ok := cmpInt(a)
+				return ok && k == 8 && (op == token.EQL && v || op == token.NEQ && !v)
+			})
+		})
+		if !underBS {
+			return
+		}
+		n++
+		good := false
+		if b, ok := ret.Results[0].(*ssa.BinOp); ok && b.Op == token.SUB {
+			if isConstInt(b.Y, 1) {
+				good = true
+			}
+			if ex, ok := b.Y.(*ssa.Extract); ok && ex.Index == 1 {
+				if call, ok := ex.Tuple.(*ssa.Call); ok && strings.HasPrefix(calleeName(call.Common()), "unicode/utf8.DecodeLastRune") {
+					good = true
+				}
+			}
+		}
+		r.check(good, fmt.Sprintf("%s:backspace return #%d removes one decoded character", relName(fn), n), ret.Pos(), fn,
+			"start = i - 1 or i - width(DecodeLastRuneInString)", "the start of the removed range is not derived from one UTF-8 decoding step")
+	})
+	r.floor("returns of the backspace case", n, 2)
+}
+
+// c15r10: resizeIfNeeded decides whether the header windows still have the height the current state asks
+// for. "Still right" means EQUAL: a header that has shrunk needs the windows rebuilt just like one that has
+// grown (round-7 mutant C15a7 turned `!=` into `>` for the header window: after hide-header / a shorter
+// change-header the old, taller window stayed and kept showing stale lines).
+func c15r10(c *Ctx, r *Report) {
+	l := c.L
+	r.rule("C15-R10", "E (sibling comparisons are all (in)equalities)", "P1",
+		"in Terminal.resizeIfNeeded, every comparison between a wanted size and the Height() of an existing window is == or !=",
+		"a window that has become too tall (or too short) is not rebuilt: stale rows stay on the screen")
+	fn := l.Fn("fzf", "(*Terminal).resizeIfNeeded")
+	if fn == nil {
+		r.unest("anchors", token.NoPos, nil, "anchor Terminal.resizeIfNeeded", "cannot resolve")
+		return
+	}
+	n := 0
+	eachInstr(fn, func(in ssa.Instruction) {
+		b, ok := in.(*ssa.BinOp)
+		if !ok {
+			return
+		}
+		switch b.Op {
+		case token.EQL, token.NEQ, token.LSS, token.LEQ, token.GTR, token.GEQ:
+		default:
+			return
+		}
+		isH := func(v ssa.Value) bool {
+			call, ok := v.(*ssa.Call)
+			return ok && call.Common().IsInvoke() && call.Common().Method.Name() == "Height"
+		}
+		if !(isH(b.X) || isH(b.Y)) {
+			return
+		}
+		other := b.X
+		if isH(b.X) {
+			other = b.Y
+		}
+		if _, isK := other.(*ssa.Const); isK {
+			return
+		}
+		n++
+		r.check(b.Op == token.EQL || b.Op == token.NEQ, fmt.Sprintf("%s:height agreement test #%d is an (in)equality", relName(fn), n), b.Pos(), fn,
+			"wanted height == / != window height", "the wanted height is compared with "+b.Op.String()+": a change in the other direction is not noticed")
+	})
+	r.floor("height agreement tests in resizeIfNeeded", n, 2)
+}
+
+// c15r11: the light renderer draws with relative cursor movements computed from its own record (x, y) of where
+// the cursor is. Pause() switches to the alternate screen, which makes the terminal SAVE the cursor, and
+// Resume() switches back, which restores it — so whatever Pause does to the cursor in between must not touch
+// the record (round-7 mutant C15b7 homed the cursor with origin(), which also sets y = 0: after execute(...)
+// in --height mode everything was drawn height-1 rows too low, over a stale copy).
+func c15r11(c *Ctx, r *Report) {
+	l := c.L
+	r.rule("C15-R11", "B (no writer of the cursor record on the pause path)", "P1",
+		"no function reachable through static calls from LightRenderer.Pause stores into LightRenderer.x or LightRenderer.y",
+		"after execute(...) under --height the list is drawn at the wrong rows: rows no longer show the corresponding result lines")
+	pause := l.Fn("tui", "(*LightRenderer).Pause")
+	if pause == nil {
+		r.unest("anchors", token.NoPos, nil, "anchor LightRenderer.Pause", "cannot resolve")
+		return
+	}
+	reach := map[*ssa.Function]bool{}
+	var walk func(f *ssa.Function)
+	walk = func(f *ssa.Function) {
+		if f == nil || reach[f] || f.Blocks == nil || f.Pkg == nil || !isModulePkg(f.Pkg.Pkg) {
+			return
+		}
+		reach[f] = true
+		eachInstr(f, func(in ssa.Instruction) { walk(staticCallee(in)) })
+	}
+	walk(pause)
+	bad := ""
+	for f := range reach {
+		eachInstr(f, func(in ssa.Instruction) {
+			st, ok := in.(*ssa.Store)
+			if !ok {
+				return
+			}
+			fld, base := fieldOf(st.Addr)
+			if fld == nil || (fld.Name() != "x" && fld.Name() != "y") {
+				return
+			}
+			if nn, ok := deref(base.Type()).(*types.Named); ok && nn.Obj().Name() == "LightRenderer" {
+				bad = fmt.Sprintf("%s stores LightRenderer.%s (%s)", relName(f), fld.Name(), l.pos(st.Pos()))
+			}
+		})
+	}
+	r.check(bad == "", relName(pause)+":the cursor record survives the pause", pause.Pos(), pause, fmt.Sprintf("%d functions reachable, none writes x / y", len(reach)), bad+": the record no longer describes the cursor the terminal restores on Resume")
 }
